@@ -148,3 +148,66 @@ Proof.
   unfold second_ns in *. rewrite (wrap64_small (1000000000 * n)) by lia.
   rewrite wrap64_small by lia. f_equal. lia.
 Qed.
+
+(* ---- FloodWait control flow ---- *)
+Definition advances (dts : list Z) : list fw_step := map FwAdvance dts.
+Definition zsum (l : list Z) : Z := fold_right Z.add 0 l.
+
+Lemma zsum_cons x t : zsum (x :: t) = x + zsum t.
+Proof. reflexivity. Qed.
+Lemma zsum_nonneg l : Forall (fun dt => 0 <= dt) l -> 0 <= zsum l.
+Proof. induction 1 as [|x t Hx _ IH]; [cbn; lia|rewrite zsum_cons; lia]. Qed.
+
+Lemma fw_wait_pre d dts : forall e rest i, Forall (fun dt => 0 <= dt) dts -> e + zsum dts < d ->
+  fw_wait d e (advances dts ++ rest) i = fw_wait d (e + zsum dts) rest (i + Z.of_nat (length dts)).
+Proof.
+  induction dts as [|dt t IH]; intros e rest i P L.
+  - change (zsum []) with 0. cbn [advances map app length]. f_equal; lia.
+  - inversion P as [|? ? P0 Pt]; subst. rewrite zsum_cons in *. pose proof (zsum_nonneg t Pt).
+    change (advances (dt :: t) ++ rest) with (FwAdvance dt :: (advances t ++ rest)). cbn [fw_wait].
+    destruct (Z.leb_spec d (e + dt)); [lia|].
+    rewrite IH by (auto; lia). cbn [length]. f_equal; lia.
+Qed.
+
+Lemma fw_blocks d dts : Forall (fun dt => 0 <= dt) dts -> zsum dts < d -> fw_wait d 0 (advances dts) 0 = None.
+Proof.
+  intros P L. rewrite <- (app_nil_r (advances dts)), fw_wait_pre by (auto; lia). reflexivity.
+Qed.
+Lemma fw_retries d dts dt rest : Forall (fun x => 0 <= x) dts -> zsum dts < d -> d <= zsum dts + dt ->
+  fw_wait d 0 (advances dts ++ FwAdvance dt :: rest) 0 = Some (Z.of_nat (length dts), FwRetry).
+Proof.
+  intros P L G. rewrite fw_wait_pre by (auto; lia). cbn [fw_wait].
+  destruct (Z.leb_spec d (0 + zsum dts + dt)); [reflexivity|lia].
+Qed.
+Lemma fw_cancelled d dts rest : Forall (fun x => 0 <= x) dts -> zsum dts < d ->
+  fw_wait d 0 (advances dts ++ FwCancel :: rest) 0 = Some (Z.of_nat (length dts), FwCtxErr).
+Proof. intros P L. rewrite fw_wait_pre by (auto; lia). reflexivity. Qed.
+
+Section FloodRun.
+  Variables (ws1 ws2 : list (list Z)) (num : list Z) (n : Z).
+  Hypothesis W1 : Forall is_word ws1.
+  Hypothesis W2 : Forall is_word ws2.
+  Hypothesis N : is_num num n.
+  Hypothesis T : is_flood_type (join (ws1 ++ ws2)) = true.
+  Hypothesis N0 : 0 <= n.
+  Hypothesis B : (n + 1) * second_ns < 2 ^ 63.
+  Let msg := join (ws1 ++ [num] ++ ws2).
+  Let d := (n + 1) * second_ns.
+
+  Lemma run_timer steps : flood_wait_run msg steps = (Some d, fw_wait d 0 steps 0).
+  Proof. unfold flood_wait_run, msg. rewrite (flood_timer_shape ws1 ws2 num n W1 W2 N T N0 B). reflexivity. Qed.
+
+  Lemma run_blocks dts : Forall (fun dt => 0 <= dt) dts -> zsum dts < d ->
+    flood_wait_run msg (advances dts) = (Some d, None).
+  Proof. intros P L. rewrite run_timer, fw_blocks; auto. Qed.
+  Lemma run_retries dts dt rest : Forall (fun x => 0 <= x) dts -> zsum dts < d -> d <= zsum dts + dt ->
+    flood_wait_run msg (advances dts ++ FwAdvance dt :: rest) = (Some d, Some (Z.of_nat (length dts), FwRetry)).
+  Proof. intros P L G. rewrite run_timer, fw_retries; auto. Qed.
+  Lemma run_cancelled dts rest : Forall (fun x => 0 <= x) dts -> zsum dts < d ->
+    flood_wait_run msg (advances dts ++ FwCancel :: rest) = (Some d, Some (Z.of_nat (length dts), FwCtxErr)).
+  Proof. intros P L. rewrite run_timer, fw_cancelled; auto. Qed.
+End FloodRun.
+
+Lemma run_not_flood msg steps : flood_timer msg = None ->
+  flood_wait_run msg steps = (None, Some (-1, FwNotFlood)).
+Proof. intros H. unfold flood_wait_run. rewrite H. reflexivity. Qed.
